@@ -113,7 +113,9 @@ def oracle(seed, tier):
         meta.append(("kd", min(math.sqrt((p[0] - q[0]) ** 2 + (p[1] - q[1]) ** 2) for p in pts)))
     for _ in range(budget(tier, 150, 1500)):
         poly = lattice_polygon(rng, rng.choice([3, 4, 6]))
-        for q in rng.sample([(Fraction(i, 2), Fraction(j, 2)) for i in range(-14, 15) for j in range(-14, 15)], 10):
+        # ten random points of the doubled lattice, plus every vertex and every edge midpoint (the boundary is part of the statement)
+        boundary = [(Fraction(v[0]), Fraction(v[1])) for v in poly] + [(Fraction(poly[i][0] + poly[(i + 1) % len(poly)][0], 2), Fraction(poly[i][1] + poly[(i + 1) % len(poly)][1], 2)) for i in range(len(poly))]
+        for q in rng.sample([(Fraction(i, 2), Fraction(j, 2)) for i in range(-14, 15) for j in range(-14, 15)], 10) + boundary:
             lines.append("kpoly 0 %d %s %s" % (len(poly), hx([v for p in poly for v in p]), hx([float(q[0]), float(q[1])])))
             meta.append(("poly", exact_inside(poly, q)[0], poly, q))
     for _ in range(budget(tier, 200, 2000)):
